@@ -282,7 +282,7 @@ fn scenario_pairs() -> Vec<(&'static str, &'static str, &'static str)> {
             r##"<svg><rect id="s0" wh="5"/><use id="s1" href="#s0" x="10"/><use id="s2" href="#s1" x="10"/><use id="s3" href="#s2" x="10"/></svg>"##),
         ("use-chain-for", r##"<svg><rect id="s0" wh="5"/><for data="1, 2, 3" var="i"><use id="s$i" href="#s{{$i - 1}}" y="4"/></for></svg>"##,
             r##"<svg><rect id="s0" wh="5"/><use id="s1" href="#s0" y="4"/><use id="s2" href="#s1" y="4"/><use id="s3" href="#s2" y="4"/></svg>"##),
-        ("if-test-tiny-but-nonzero", r##"<svg><rect wh="1"/><if test="1"><rect xy="^|h" wh="5"/></if></svg>"##, r##"<svg><rect wh="1"/><rect xy="^|h" wh="5"/></svg>"##),
+        ("if-test-tiny-but-nonzero", r##"<svg><rect wh="1"/><if test="0.0004"><rect xy="^|h" wh="5"/></if></svg>"##, r##"<svg><rect wh="1"/><rect xy="^|h" wh="5"/></svg>"##),
         ("deferred-body/if-retested", r##"<svg><var c="1"/><if test="$c"><rect xy="#z|h" wh="2"/></if><var c="0"/><rect id="z" wh="5"/></svg>"##,
             r##"<svg><var c="1"/><rect xy="#z|h" wh="2"/><var c="0"/><rect id="z" wh="5"/></svg>"##),
         ("deferred-body/var-update-repeated", r##"<svg><var n="0"/><loop count="2"><var n="{{$n+1}}"/><rect xy="#z|h" wh="$n"/></loop><rect id="z" wh="5"/></svg>"##,
